@@ -104,10 +104,10 @@ package txtar
 //@   names (err)
 //@   requires a != nil
 //@   use joinBelow, catEmpty
-//@   modifies fsExists, fsData, fdPath, alloc
+//@   modifies fsExists, fsData, fsSize, fdPath, fdMode, fdClosed, alloc
 //@   at call os.OpenFile#1: requires flag & 192 == 192 && belowId(dir, sid(name))
 //@   at call os.MkdirAll#1: requires sameStr(path, dirP(fp))
-//@   at call (*os.File).Write#1: requires sameSlice(b, f.Data)
+//@   at call (*os.File).Write#1: requires sameSlice(b, my_f.Data)
 //@   loop 1: invariant -1 <= rangeindex && rangeindex < len(a.Files)
 //@   loop 1: invariant forall p int {fsExists[p]} :: old(fsExists)[p] ==> fsExists[p]
 //@   loop 1: invariant forall p int {fsData[p]} :: old(fsExists)[p] ==> fsData[p] == old(fsData)[p]
